@@ -114,7 +114,7 @@ func runC19(o *out, r *rng, thorough bool, replay string) {
 				for _, s := range signers {
 					pw += pt.ScaledPower[s]
 				}
-				if !gpbft.IsStrongQuorum(pw, pt.ScaledTotal) {
+				if !indepStrong(pw, pt.ScaledTotal) {
 					break
 				}
 				signers = signers[:len(signers)-1]
